@@ -346,6 +346,7 @@ def run(ctx):
             newly_rejected=newly,
             rule="every spelling of REG_TYPE [CNPRMQVO] x access letters (10 single, 7 pair) x {V, N}; explicit registers [RCPVQMGS] x numbers {0,1,3,11,31} and pairs x {plain, _NEW}; every HEX_REG_ALIAS_* of patches_macros.h x {plain, _NEW}; the 8 immediate letters; "
             "loads and stores for s/u x 8/16/32/64 with 3 address types; JUMP with every target type; each register spelling in the micro-programs read, read twice, write, read-write-read, write-read, write-write-read; "
+            "two related spellings in one behaviour in both orders (plain / .new of letter, explicit and alias registers, similar names, lower / upper-case immediates); "
             "static oracle: resolver/letter/class/number/alias/.new flag of each HexOp declaration against an independent table; dynamic oracle: cref on the complete E5 domain with distinct values in the committed and pending banks",
             exhaustive=True,
         ),
